@@ -274,6 +274,25 @@ fn check_state<K: Kernel<D, Scalar = f64>, const D: usize>(rep: &Report, cn: &Cn
         ops.extend(model::flip_ops(&base, &[std::array::from_fn(|i| 0.3 + 0.05 * i as f64)], 4000).into_iter().step_by(7));
     }
     ops.extend([Op::Repair, Op::RepairAdvanced, Op::SetVP(2), Op::SetTG(1), Op::SetRP(1), Op::SetCP(1), Op::TouchMut, Op::CloneSwap, Op::SerdeSwap]);
+    // the public local facet repair removes a cell without going through insert / remove / flips: every triple of
+    // cells on small states (which cell goes, and whether some vertex used it as its incident cell, varies), sliding
+    // triples otherwise
+    let nc = base.number_of_cells();
+    if nc >= 3 {
+        if nc <= 8 || full_ops {
+            for a in 0..nc {
+                for b in a + 1..nc {
+                    for c in b + 1..nc {
+                        ops.push(Op::RepairLocalFacets { a, b, c });
+                    }
+                }
+            }
+        } else {
+            for a in 0..nc - 2 {
+                ops.push(Op::RepairLocalFacets { a, b: a + 1, c: a + 2 });
+            }
+        }
+    }
     for op in ops {
         cn.ops.fetch_add(1, Ordering::Relaxed);
         let mut dt = independent(state);
